@@ -14,6 +14,26 @@ use std::{
 
 struct Flag {
     woken: AtomicBool,
+    /// Generation of the waker handed to the task's most recent poll (fresh-waker mode).
+    gen: std::sync::atomic::AtomicU64,
+}
+
+/// A waker that belongs to one particular poll of a task. Once the task has been polled again
+/// (with a newer waker) this one is stale and waking it does nothing.
+struct GenWaker {
+    flag: Arc<Flag>,
+    gen: u64,
+}
+
+impl Wake for GenWaker {
+    fn wake(self: Arc<Self>) {
+        self.wake_by_ref()
+    }
+    fn wake_by_ref(self: &Arc<Self>) {
+        if self.flag.gen.load(Ordering::Relaxed) == self.gen {
+            self.flag.woken.store(true, Ordering::Relaxed);
+        }
+    }
 }
 
 impl Wake for Flag {
@@ -48,7 +68,7 @@ impl<'a> Exec<'a> {
     }
 
     pub fn spawn(&mut self, fut: impl Future<Output = ()> + 'a) -> usize {
-        let flag = Arc::new(Flag { woken: AtomicBool::new(true) });
+        let flag = Arc::new(Flag { woken: AtomicBool::new(true), gen: std::sync::atomic::AtomicU64::new(0) });
         let waker = Waker::from(flag.clone());
         self.tasks.push(Task { fut: Some(Box::pin(fut)), flag, waker, polls: 0 });
         self.tasks.len() - 1
@@ -81,6 +101,9 @@ impl<'a> Exec<'a> {
         }
         crate::logsub::set_mode(world.borrow().cfg.log);
         let _log_off = LogOff(world);
+        if world.borrow().cfg.fresh_wakers {
+            world.borrow_mut().stat("buggify.fresh_waker_for_every_poll_stale_ones_dead");
+        }
         let mut woken: Vec<usize> = Vec::new();
         loop {
             woken.clear();
@@ -134,7 +157,15 @@ impl<'a> Exec<'a> {
                 let t = &mut self.tasks[i];
                 t.flag.woken.store(false, Ordering::Relaxed);
                 t.polls += 1;
-                let mut cx = Context::from_waker(&t.waker);
+                let fresh;
+                let waker = if world.borrow().cfg.fresh_wakers {
+                    let gen = t.flag.gen.fetch_add(1, Ordering::Relaxed) + 1;
+                    fresh = Waker::from(Arc::new(GenWaker { flag: t.flag.clone(), gen }));
+                    &fresh
+                } else {
+                    &t.waker
+                };
+                let mut cx = Context::from_waker(waker);
                 let r = t.fut.as_mut().unwrap().as_mut().poll(&mut cx);
                 if let Poll::Ready(()) = r {
                     t.fut = None;
